@@ -1,4 +1,5 @@
-"""Real-transport stage: the tcp and http front ends themselves (tcp_ops::start_tcp_client / handle_client, http_ops::start_http_client),
+"""Real-transport stage: the tcp, http and websocket front ends themselves (tcp_ops::start_tcp_client / handle_client,
+http_ops::start_http_client, ws_ops::start_web_socket_client with its on_open / on_message / on_close handler),
 started on loopback ports inside the harness (`nvh transport <script>`) and driven over sockets; the same session script is also run
 in-process through the harness operations the other stages use (SESS / C / CLOSE / HTTP — the re-enactment of the transports' glue that is
 compared with the Lean model and judged by the oracles).  What every socket received, every HTTP response body and the node's data and
@@ -9,11 +10,17 @@ from concurrent.futures import ThreadPoolExecutor
 from vlib import core
 from vlib.runner import Failure
 
+def ws_sids(script):
+    return {int(l.split(" ")[1]) for l in script if l.startswith("W ")}
+
 def to_inprocess(script):
-    out = ["RESET primary"]
+    out = ["RESET primary"]; ws = ws_sids(script)
     for l in script:
         p = l.split(" ", 2)
-        if p[0] == "T": out.append(f"SESS {p[1]}")
+        if p[0] in ("T", "W"): out.append(f"SESS {p[1]}")
+        elif p[0] == "C" and int(p[1]) in ws:
+            # ws_ops::on_message: the text of one message is split at `;`, every piece is a request of its own
+            for piece in (p[2] if len(p) > 2 else "").split(";"): out.append(f"C {p[1]} {piece}")
         elif p[0] == "C": out.append(l)
         elif p[0] == "X": out.append(f"CLOSE {p[1]}")
         elif p[0] == "H": out.append("HTTP 99 " + l.split(" ", 1)[1])
@@ -22,17 +29,20 @@ def to_inprocess(script):
 
 def expected(script, steps):
     """per-session byte streams, http bodies and data dumps the in-process run predicts for the sockets"""
-    streams = {}; https = []; dumps = []
+    streams = {}; https = []; dumps = []; ws = ws_sids(script)
     for (inp, rest, dump) in steps:
         p = inp.split(" ", 2)
         for l in rest:
             if l.startswith("M "):
                 q = l.split(" ", 2); streams.setdefault(int(q[1]), bytearray()).extend(core.unesc(q[2] if len(q) > 2 else ""))
-        if p[0] == "SESS": streams.setdefault(int(p[1]), bytearray()).extend(b"ok \n")
+        if p[0] == "SESS":
+            if int(p[1]) not in ws: streams.setdefault(int(p[1]), bytearray()).extend(b"ok \n")      # the tcp greeting; a websocket has none
         elif p[0] == "C":
             r = next((x for x in rest if x.startswith("R ")), "R ok")
             sid = int(p[1])
-            if r.startswith("R error "): streams.setdefault(sid, bytearray()).extend(b"error " + core.unesc(r[8:]) + b" \n")
+            if r.startswith("R verr ") and sid in ws:       # the websocket front end reports a version error as an error line, tcp answers `ok`
+                streams.setdefault(sid, bytearray()).extend(b"error " + core.unesc(r.split(" ", 5)[5] if len(r.split(" ", 5)) > 5 else "") + b" \n")
+            elif r.startswith("R error "): streams.setdefault(sid, bytearray()).extend(b"error " + core.unesc(r[8:]) + b" \n")
             elif r.startswith("R PANIC"): streams.setdefault(sid, bytearray()).extend(b"<panic>")
             else: streams.setdefault(sid, bytearray()).extend(b"ok \n")
         elif p[0] == "HTTP":
@@ -72,7 +82,7 @@ def run_one(ix_script, tag):
         for sid in sorted(set(exp[0]) | set(obs[0])):
             a, b = bytes(exp[0].get(sid, b"")), bytes(obs[0].get(sid, b""))
             if a != b:
-                fails.append(Failure("socket-received-differs-from-session:tcp", f"session {sid}: in-process {a[:300]!r} socket {b[:300]!r}")); break
+                fails.append(Failure("socket-received-differs-from-session:" + ("websocket" if sid in ws_sids(script) else "tcp"), f"session {sid}: in-process {a[:300]!r} socket {b[:300]!r}")); break
         if exp[1] != obs[1]:
             k = next((i for i, (x, y) in enumerate(zip(exp[1], obs[1])) if x != y), min(len(exp[1]), len(obs[1])))
             fails.append(Failure("http-response-differs-from-session", f"request {k}: in-process {exp[1][k:k+1]} http {obs[1][k:k+1]}"))
@@ -81,7 +91,7 @@ def run_one(ix_script, tag):
                 dl = next(((a, b) for a, b in zip(x, y) if a != b), (x[len(y):][:1], y[len(x):][:1]))
                 what = "connection-count" if "conns=" in str(dl) or "$connections" in str(dl) else "data"
                 fails.append(Failure(f"{what}-differs-after-real-transport-sessions", f"dump {k}: in-process {dl[0]} real transport {dl[1]}")); break
-        for f in fails: f.case = ["# real-transport stage: NVH_DIR=<dir> harness/target/debug/nvh transport <this file>; compare with the in-process form (T→SESS, X→CLOSE, H→HTTP)"] + script; f.noshrink = True
+        for f in fails: f.case = ["# real-transport stage: NVH_DIR=<dir> harness/target/debug/nvh transport <this file>; compare with the in-process form (T / W→SESS, X→CLOSE, H→HTTP; a websocket message is split at `;`)"] + script; f.noshrink = True
         return dict(fails=fails, ops=len(script), bytes=sum(len(v) for v in obs[0].values()))
     finally:
         shutil.rmtree(d, ignore_errors=True)
@@ -91,7 +101,7 @@ def stage(pid, scripts, tag=None):
         rs = list(ex.map(lambda t: run_one(t, tag or pid), enumerate(scripts)))
     failures = [f for r in rs for f in r["fails"]]
     cov = dict(real_transport=dict(scripts=len(scripts), operations=sum(r["ops"] for r in rs), socket_bytes_compared=sum(r["bytes"] for r in rs), failures=len(failures),
-               rule="the real tcp_ops / http_ops front ends on loopback ports, driven over sockets: bytes every socket received, HTTP response bodies and the data / connection counters afterwards must equal the in-process session run of the same script"))
+               rule="the real tcp_ops / http_ops / ws_ops front ends on loopback ports, driven over sockets: bytes every socket received, HTTP response bodies and the data / connection counters afterwards must equal the in-process session run of the same script"))
     return dict(obligations=[("real-transport stage ran", len(rs) == len(scripts), f"{len(scripts)} scripts")], failures=failures, evaluations=len(scripts), coverage=cov)
 
 def merge(a, b):
@@ -100,3 +110,43 @@ def merge(a, b):
     cov = dict(a.get("coverage", {})); cov.update(b.get("coverage", {}))
     return dict(obligations=a.get("obligations", []) + b.get("obligations", []), failures=a.get("failures", []) + b.get("failures", []),
                 evaluations=a.get("evaluations", 0) + b.get("evaluations", 0), coverage=cov)
+
+
+def liveness_stage(pid, garbage, tag=None):
+    """C10 over the REAL tcp and websocket front ends: one session sends a line the in-process harness cannot express or would only re-enact
+    (bytes that are not UTF-8, NUL bytes, a bare CR, a very long line, deep envelopes, runs of `;`) — afterwards the front end must still be
+    alive: the same session, the administrator's session and a NEW connection are each answered correctly, and the process has not died."""
+    # (the probes read a key no hostile line names: some of those lines are legitimate commands on `a`)
+    setup = ["T 1", "C 1 auth adm pw", "C 1 create-db t tok", "C 1 use-db t tok", "C 1 set a 1", "C 1 set zq 1"]
+    scripts = []
+    for kind in ("T", "W"):
+        for g in garbage:
+            scripts.append(setup + [f"{kind} 2", "C 2 use-db t tok", f"C 2 {g}", "C 2 get zq", "C 1 get zq", "T 3", "C 3 use-db t tok", "C 3 get zq", "DUMP"])
+    def one(ix_script):
+        ix, script = ix_script
+        d = os.path.join(core.SCRATCH, f"transport_{tag or pid}_live_{os.getpid()}_{ix}"); shutil.rmtree(d, ignore_errors=True); os.makedirs(d)
+        try:
+            sp = os.path.join(d, "t.script"); open(sp, "w").write("\n".join(script) + "\n")
+            try:
+                p = subprocess.run([core.NVH, "transport", sp], env=dict(core.ENV, NVH_DIR=d), stdout=subprocess.PIPE, stderr=subprocess.PIPE, timeout=120)
+            except subprocess.TimeoutExpired:
+                f = Failure("front-end-wedged-by-client-input", f"no end of the script after 120 s: {script[8][:120]}"); f.case = script; f.noshrink = True; return [f]
+            lines = [l for l in p.stdout.decode(errors="replace").split("\n") if l]
+            streams, _, dumps = observed(lines)
+            fails = []
+            if p.returncode != 0: fails.append(Failure("front-end-process-died-on-client-input", f"rc={p.returncode}: {p.stderr.decode(errors='replace')[-300:]}"))
+            else:
+                if not bytes(streams.get(1, b"")).endswith(b"value 1\nok \n"): fails.append(Failure("other-session-not-served-after-client-input", f"administrator session received {bytes(streams.get(1, b''))[-120:]!r}"))
+                if not bytes(streams.get(3, b"")).endswith(b"value 1\nok \n"): fails.append(Failure("new-connection-not-served-after-client-input", f"new connection received {bytes(streams.get(3, b''))[-120:]!r}"))
+                s2 = bytes(streams.get(2, b""))
+                if not (s2.endswith(b"value 1\nok \n") or s2.endswith(b"value 1\nok \nok \n")): fails.append(Failure("same-session-not-served-after-client-input", f"the session that sent the line received {s2[-160:]!r}"))
+            for f in fails: f.case = ["# real-transport liveness: NVH_DIR=<dir> harness/target/debug/nvh transport <this file>"] + script; f.noshrink = True
+            return fails
+        finally:
+            shutil.rmtree(d, ignore_errors=True)
+    with ThreadPoolExecutor(max_workers=8) as ex:
+        rs = list(ex.map(one, enumerate(scripts)))
+    failures = [f for r in rs for f in r]
+    cov = dict(real_transport_liveness=dict(scripts=len(scripts), failures=len(failures),
+               rule="a hostile line over a real tcp / websocket connection, then the same session, another session and a new connection must each be answered; the process must not die"))
+    return dict(obligations=[("real-transport liveness stage ran", True, f"{len(scripts)} scripts")], failures=failures, evaluations=len(scripts), coverage=cov)
